@@ -186,6 +186,10 @@ func recordingFinalName(filename string) string {
 
 func deleteTempFiles(directory string) error {
 	matches, _ := filepath.Glob(filepath.Join(directory, "*."+cptvTempExt))
+	// The CPTV writer keeps the uncompressed frames in "<name>.tmp" until the
+	// recording is closed.
+	scratch, _ := filepath.Glob(filepath.Join(directory, "*."+cptvTempExt+".tmp"))
+	matches = append(matches, scratch...)
 	for _, filename := range matches {
 		if err := os.Remove(filename); err != nil {
 			return err
